@@ -47,6 +47,7 @@ func (g *Gen) registerBase() {
 	g.add("bridge_receive", g.genBridgeReceive)
 	g.add("bridge_receive_bound", g.genBridgeReceiveBound)
 	g.add("mint_replay", g.genMintReplay)
+	g.add("create_batch_replay", g.genCreateBatchReplay)
 	g.add("allowlist", g.genAllowlist)
 	g.add("class_creator", g.genClassCreator)
 	g.add("class_fee", g.genClassFee)
@@ -1197,6 +1198,49 @@ func (g *Gen) boundOrigin(classID, src, contract string) *basetypes.OriginTx {
 // genMintReplay replays an origin transaction that state says was already consumed in a class — the
 // exact (id, source) pair, or a letter-case variant of the source — through MintBatchCredits on an
 // open batch of that class, signed by the batch issuer with an otherwise valid issuance.
+// genCreateBatchReplay: the replay of a consumed origin transaction through the OTHER issuing paths —
+// a direct CreateBatch, or a BridgeReceive naming a contract that is not bound yet (which creates a
+// batch) — with exactly the stored id and source (sources with upper-case letters preferred).
+func (g *Gen) genCreateBatchReplay() *eng.Tx {
+	if len(g.V.OriginTxs) == 0 {
+		return nil
+	}
+	o := g.V.OriginTxs[g.R.Intn(len(g.V.OriginTxs))]
+	for i := 0; i < 4; i++ {
+		x := g.V.OriginTxs[g.R.Intn(len(g.V.OriginTxs))]
+		if x.Source != strings.ToLower(x.Source) {
+			o = x
+			break
+		}
+	}
+	c := g.V.Classes[o.ClassKey]
+	if c == nil {
+		return nil
+	}
+	iss := sortedKeys(g.V.Issuers[c.Key])
+	if len(iss) == 0 {
+		return nil
+	}
+	src := o.Source
+	if g.chance(0.2) {
+		src = strings.ToLower(src)
+	}
+	s, e := time.Date(2018, 1, 1, 0, 0, 0, 0, time.UTC), time.Date(2018, 6, 1, 0, 0, 0, 0, time.UTC)
+	g.refSeq++
+	if g.chance(0.5) {
+		for _, p := range g.V.ProjectList {
+			if p.ClassKey == c.Key {
+				return tx(&basetypes.MsgCreateBatch{Issuer: iss[0], ProjectId: p.Id, Metadata: "replay", StartDate: &s, EndDate: &e, Open: true,
+					Issuance: []*basetypes.BatchIssuance{{Recipient: g.actor(), TradableAmount: "3"}}, OriginTx: &basetypes.OriginTx{Id: o.Id, Source: src, Contract: ethAddr(5000 + g.refSeq)}})
+			}
+		}
+	}
+	return tx(&basetypes.MsgBridgeReceive{Issuer: iss[0], ClassId: c.Id,
+		Project:  &basetypes.MsgBridgeReceive_Project{ReferenceId: fmt.Sprintf("RPL-%d", g.refSeq), Jurisdiction: "US", Metadata: "pm"},
+		Batch:    &basetypes.MsgBridgeReceive_Batch{Recipient: g.actor(), Amount: "3", StartDate: &s, EndDate: &e, Metadata: "bm"},
+		OriginTx: &basetypes.OriginTx{Id: o.Id, Source: src, Contract: ethAddr(5000 + g.refSeq)}})
+}
+
 func (g *Gen) genMintReplay() *eng.Tx {
 	if len(g.V.OriginTxs) == 0 {
 		return nil
